@@ -23,6 +23,10 @@ CLAIMED = {
          "2D window, span and factor formulas, same-box task tables, ascending overwrite, per-field store agreement, common transpose, name/array pairing, coordinates."),
  "C16": ("alias rule + E5 identities + H-FAB template evaluation + E4 writer grammars + chunking rules",
          "Distinct per-level accumulators, per-level interpolation identity, each footprint once, span/down-sampling formulas, literal FAB header = canonical 2D template, header count, offset capture, min/max source, chunk step >= 1 and chunks <= names, Header and Cell_H grammars."),
+ "C09": ("must-pass-through + sentinel/polarity + level-coherence rules + E1 windows with sibling summaries + DIV-ALL",
+         "Both sums on every path, limit wiring, mask sentinel and polarity, level coherence of dV/tables/masks, byte windows of both workers, ordered imap under float accumulation, occupancy resolution = gcd of all box boundaries."),
+ "C10": ("E7 wiring + TEXT-KIND + E1 scan accounting + span identities + unordered-pool consumer rule",
+         "All options read and wired, str header for the parser, window of the requested component with whole-FAB advance, axis<->dimension span identities, self-describing unordered results inside the ascending level loop, zero-initialised buffer."),
  "C11": ("E1 on the five knives (incl. recipe-result rank) + names/count/order rules + E2 + E4",
          "Header count = kept + new components on every path, rank agreement, [kept ++ new] order, min/max over the written array, no store through input views, names defined/counted/ordered like the data, offset-sorted scatter map, ordered pathos imap with serial twin, worker globals vs persistent pool, writer grammars."),
  "C12": ("E2 non-interference rules over all pool call sites",
@@ -35,6 +39,10 @@ CLAIMED = {
          "Whole-FAB advance 8*C*N per scan iteration, one append per header, np.unique over the level's file table, chained iterator protocol, ordered on-demand iterator."),
  "C17": ("E1 on the conversion worker (8 flag paths, ghost-trim extent algebra) + positional task roles + E4 + E5",
          "State scan with whole-FAB advance, subsets seek-addressed with their own offsets, F-order reshape of every subset, per-axis ghost strip, [state ++ gradp ++ I_R] order under the flags, header count, min/max source, flooring; 11-slot task vs unpack; offset-sorted scatter map; names/count; grid and per-direction box-bound formulas; Header and Cell_H writer grammars; CLI polarity; sinks under pltdir."),
+ "C18": ("header-walk prefix agreement (E4) + reducer/table pairing + parity rule + picklability + wiring",
+         "minuterie and menu consume the reader's own prefix, min with 'mins' and max with 'maxs' over all or the finest level, 3 significant digits, odd-count padding, every field once, reader pickles, read-only tools have no sink."),
+ "C19": ("E5 index-formula identity + per-dimension comparator normal forms + refusal-path rule",
+         "index = (point - geo_low)/dx - 1/2 with the read level's dx, local index vs the same box, per-dimension box-match comparators, finest-level selection, un-swallowed refusal."),
  "C20": ("assume/guarantee over parser summaries, checked pairs and reader pre-conditions",
          "Validator and reader share parser summaries and table rows; validator post-conditions cover the reader's pre-conditions."),
 }
